@@ -320,6 +320,12 @@ func (s *LevelDBStore) StoreLogProto(msg *pb.RaftLog) error {
 
 // DeleteRange implements raft.LogStore.
 func (s *LevelDBStore) DeleteRange(min, max uint64) error {
+	if min > max {
+		// Empty range: nothing to delete. An iterator whose start key sorts
+		// after its limit key makes goleveldb panic once the database consists
+		// of multiple table files.
+		return nil
+	}
 	iterator := s.GetBulkIterator(min, max+1)
 	defer iterator.Release()
 
